@@ -10,7 +10,7 @@ from engine.common import Report, Ob, prove, func_source_info
 from engine.larr import RowArr
 from engine.npshim import NP, det_term, obj
 from engine.pyvc import SR, sint, z3num, z3bool, cur
-from engine.symcoll import Opaque
+from engine.symcoll import Opaque, LoopSpec
 from props._util import run_fv, section, sections_parallel
 
 REL = "matid/symmetry/symmetryanalyzer.py"
@@ -53,7 +53,7 @@ def run():
     obs, mats = tabvc.primitive_obligations()
     rep.obligations.extend(obs)
     rep.obligations.extend(tabvc.run_family(tabvc.primitive_lattice_obligation, [(sg, mats) for sg in range(1, 231)]))
-    sections_parallel(rep, [("prim", _prim), ("maps", _maps)])
+    sections_parallel(rep, [("prim", _prim), ("maps", _maps), ("letters_original", _letters_original)])
     # volume: det(P^T C) = det P * det C
     A = [[z3.Real("p%d%d" % (i, j)) for j in range(3)] for i in range(3)]
     C = [[z3.Real("c%d%d" % (i, j)) for j in range(3)] for i in range(3)]
@@ -179,6 +179,62 @@ def _maps(rep):
                contracts={REL + ":SymmetryAnalyzer.get_symmetry_dataset": ds_contract})
 
 
+def _letters_original(rep):
+    """get_wyckoff_letters_original: entry i is the letter spglib gave to original atom i, relabelled by the permutation of the applied
+    normalizer - for every number of atoms and every permutation (per-iteration obligation + the array-initialisation schema of I.5)"""
+    m = contexts.symmetry_ctx()
+    PERM = z3.Function("applied_permutation", I, I)
+    FNQ = "SymmetryAnalyzer.get_wyckoff_letters_original"
+
+    class PermMap:
+        def _getitem(self, k):
+            return SR(PERM(z3num(k)))
+
+    class Letters:
+        """list the loop appends to; np.array(list) keeps the entries"""
+
+        def __init__(self):
+            self.log = []
+
+        def append(self, v):
+            self.log.append(v)
+
+        def _state(self):
+            return []
+
+        def _as_array(self):
+            return self
+
+    def mk(st, it):
+        N = sint("n_orig")
+        st.assume(N.t >= 1)
+        L = sym_int_rows("spglib_letter", N)
+        st.ghost["L"] = L
+        self_ = contexts.make_self(m, "SymmetryAnalyzer", {"_best_transform": {"permutations": PermMap()}})
+        return [self_], {}, {"L": L}
+
+    def havoc(st, env, old):
+        lg = Letters()
+        st.ghost["letters_log"] = lg
+        env.vars["new_wyckoffs"] = lg
+        for nm in ("old_wyckoff", "new_wyckoff"):
+            env.vars.pop(nm, None)
+
+    def body(st, env, k, old):
+        lg = env.lookup("new_wyckoffs")
+        ok = isinstance(lg, Letters) and len(lg.log) == 1
+        out = [("one-entry-appended-per-atom", z3.BoolVal(ok))]
+        if ok:
+            out.append(("entry-is-the-spglib-letter-relabelled-by-the-applied-permutation", z3num(lg.log[0]) == PERM(z3num(st.ghost["L"].row(k)))))
+        return out
+
+    def post(st, ctx, r):
+        st.prove("returns-the-list-filled-by-the-loop", z3.BoolVal(r is st.ghost.get("letters_log")))
+
+    run_fv(rep, "letters_original.", m, FNQ, mk, post, loops={(FNQ, 1): LoopSpec(lambda *a: [], havoc, name="atoms", body_post=body)},
+           contracts={REL + ":SymmetryAnalyzer._get_spglib_wyckoff_letters_original": lambda it, st, bound, site: st.ghost["L"]})
+
+
 def replay_key(ob):
     return "c12"
 
@@ -216,6 +272,31 @@ def replay(ob):
             fails.append({"sg": sg, "observed": "%s: %s" % (type(e).__name__, str(e)[:200])})
         if len(fails) >= 3:
             break
+    # two species on letters that a normalizer exchanges: the per-atom letters of the three descriptions must stay consistent
+    import collections
+    import itertools
+    from props import _sym
+    P1, P2 = {"x": 0.2113, "y": 0.0687, "z": 0.3391}, {"x": 0.0641, "y": 0.3727, "z": 0.1583}
+    for sg in (225, 216, 139, 221, 65, 38, 166):
+        L = _sym.letters_of(sg)
+        for (li, lj), (za, zb) in itertools.product(itertools.combinations(L[:3], 2), ((17, 3), (3, 17))):
+            try:
+                at = tr.probe(sg, [(li, za, P1), (lj, zb, P2)])
+                if len(at) > 120:
+                    continue
+                for variant in (at, at[list(reversed(range(len(at))))]):
+                    a = tr.analyze(variant)
+                    conv = a.get_conventional_system()
+                    co = collections.Counter(zip([str(x) for x in a.get_wyckoff_letters_original()], variant.get_atomic_numbers().tolist()))
+                    cc = collections.Counter(zip([str(x) for x in a.get_wyckoff_letters_conventional()], conv.get_atomic_numbers().tolist()))
+                    # counts proportional to the atom counts
+                    if set(co) != set(cc) or any(co[k] * len(conv) != cc[k] * len(variant) for k in cc):
+                        fails.append({"sg": sg, "occupied": [li, lj], "species": [za, zb], "observed": "(letter, element) counts of the original description %s vs conventional %s are not in the ratio of the atom counts" % (dict(co), dict(cc))})
+                        break
+            except Exception as e:  # noqa
+                fails.append({"sg": sg, "occupied": [li, lj], "observed": "%s: %s" % (type(e).__name__, str(e)[:200])})
+            if len(fails) >= 3:
+                return {"reproduced": True, "failing_inputs": fails[:3]}
     return {"reproduced": bool(fails), "failing_inputs": fails[:3]}
 
 
